@@ -52,6 +52,8 @@ def judge(v: Verdict, module: str, obs: list, *, cfg: str | None = None, env: di
             v.machinery(f"trace validation {module}: consumed {r['distinct'] - 1} of {len(ch)} observations")
         v.traces += len(ch)
         for rec in r["records"]:
+            if not isinstance(rec, dict):      # constant-level PrintT of an instantiated module (evaluated once at start-up)
+                continue
             for b in rec.get("bad", []):
                 b = dict(b)
                 b["subject"] = rec.get("id")
